@@ -2,7 +2,7 @@ CONSTANTS
   G = 2
   Ws = {2, 3}
   D <- DQuick
-  Als = {0, 1, 2}
+  Als = {2}
   HasFill = TRUE
   RoundMode <- AwayMode
 SPECIFICATION Spec
